@@ -736,6 +736,54 @@ pub fn run(ctx: &mut Ctx) {
             ctx.tag("literal-inside-a-meta-block");
         }
     }
+    // `n collect` takes exactly n items: a count larger than what is there is an error that changes nothing (like an index
+    // out of range), every count up to the depth gives a vector of that length — every depth 0..4 with every count 0..6
+    for depth in 0..5usize {
+        for n in 0..7usize {
+            let items: Vec<Cell> = (0..depth).map(|i| Cell::Int(10 + i as i128)).collect();
+            let mut args = items.clone();
+            args.push(Cell::Int(n as i128));
+            let (out, st) = step(ctx, &base, "collect", &args);
+            if n <= depth {
+                let want: Vec<Cell> = items[..depth - n].iter().cloned().chain(std::iter::once(vec_cell(&items[depth - n..]))).collect();
+                check(ctx, &mut fails, "", out == canon::ok_stack(&want), || format!("C12 collect {}", canon::stack_str(&args)), || canon::ok_stack(&want), || out.clone());
+            } else {
+                check(ctx, &mut fails, "", st.is_none() && out.starts_with("err StackUnderflow"), || format!("C12 collect {}", canon::stack_str(&args)), || "err StackUnderflow (and the stack as it was)".into(), || out.clone());
+                // the operands are still there
+                let mut xs = base.clone();
+                for c in args.iter() { xs.push_data(c.clone()).unwrap(); }
+                let _ = crate::guarded(|| xs.eval("collect"));
+                let left: Vec<String> = canon::stack(&xs).iter().map(canon::cell).collect();
+                let want: Vec<String> = items.iter().map(canon::cell).collect();
+                check(ctx, &mut fails, "", left == want || left == args.iter().map(canon::cell).collect::<Vec<_>>(), || format!("C12 collect {} (refused)", canon::stack_str(&args)), || format!("the items still on the stack: {:?}", want), || format!("{:?}", left));
+            }
+            ctx.tag("collect:every-count");
+        }
+    }
+    // values tagged more than once (a number read with `u8` and labelled, a formatted constant given a second tag, a tag
+    // removed again) are the values they are: equal to the bare value, the same key, sorted where the bare value sorts
+    {
+        let bare = |i: i128| Cell::Int(i);
+        let twice = |xs: &Xstate, src: &str| -> Option<Cell> { let mut x = xs.clone(); match crate::guarded(|| x.eval(src)) { Some(Ok(())) => x.get_data(0).cloned(), _ => None } };
+        let spell = ["1 \"b\" \"a\" insert-tag \"d\" \"c\" insert-tag", "1 ^hex \"x\" \"y\" insert-tag", "|01| open-bitstr u8 close-bitstr \"k\" \"v\" insert-tag", "1 ^hex ^bin", "1 1 \"a\" insert-tag 2 \"b\" insert-tag \"a\" remove-tag",
+            "1 ^{ 1 \"p\" ^} ^{ 2 \"q\" ^}", "1 ^hex true fmt/prefix true fmt/upcase"];
+        for sp in spell {
+            let k1 = match twice(&base, sp) { Some(c) => c, None => { ctx.tag("tagged-twice:skipped"); continue; } };
+            let (o, _) = run_src(&base, "equal?", &[k1.clone(), bare(1)]);
+            check(ctx, &mut fails, "", o == canon::ok_stack(&[Cell::Flag(true)]), || format!("C12 `{}` 1 equal?", sp), || "ok T".into(), || o.clone());
+            let (o, _) = run_src(&base, "equal?", &[vec_cell(&[k1.clone()]), vec_cell(&[bare(1)])]);
+            check(ctx, &mut fails, "", o == canon::ok_stack(&[Cell::Flag(true)]), || format!("C12 [ `{}` ] [ 1 ] equal?", sp), || "ok T".into(), || o.clone());
+            let cells = [Cell::from("one"), k1.clone(), Cell::from("two"), bare(2)];
+            let args = [vec_cell(&cells)];
+            let (out, st) = step(ctx, &base, "{}", &args);
+            let lit = vec![(bare(1), Cell::from("one")), (bare(2), Cell::from("two"))];
+            let ok = st.map(|st| st.len() == 1 && map_agrees(&st[0], &lit)).unwrap_or(false);
+            check(ctx, &mut fails, "", ok, || format!("C12 {{}} {}   (key 1 spelled `{}`)", canon::stack_str(&args), sp), || alist_str(&lit), || out.clone());
+            sort_case(ctx, &base, &mut fails, &[bare(3), k1.clone(), bare(2)]);
+            sort_case(ctx, &base, &mut fails, &[k1.clone(), bare(0), k1.clone(), bare(-1)]);
+            ctx.tag("tagged-twice");
+        }
+    }
     // 2. sequences
     for s in 0..ctx.n {
         match s % 10 {
